@@ -174,6 +174,7 @@ func (sc *Scheduler) Schedule(ctx context.Context, g *ExecutionGraph, done chan 
 							node.setStatus(NodeStatusCancel)
 							sc.setLastError(execErr)
 						case sc.isCanceled():
+							node.setStatus(NodeStatusCancel)
 							sc.setLastError(execErr)
 						case node.data.Step.RetryPolicy != nil && node.data.Step.RetryPolicy.Limit > node.getRetryCount():
 							// retry
